@@ -495,7 +495,7 @@ def conc_explore(prop, tier, seed, cov, log):
         d = subprocess.run([L.DRIVER], input=r.stdout, capture_output=True, text=True)
         return i, r.stdout, d.stdout, None
     viol = []; seen = set(); known = L.load_known(prop)
-    tot = {'explored': 0, 'distinct': 0, 'deadlocks': 0}; hist = 0; unser = 0; agree = 0
+    tot = {'explored': 0, 'distinct': 0, 'deadlocks': 0}; hist = 0; unser = 0; agree = 0; regchk = [0]
     def report(cause, i, detail, trace, idx, nfi=False):
         if cause in seen: return
         seen.add(cause)
@@ -531,16 +531,20 @@ def conc_explore(prop, tier, seed, cov, log):
                         report('deadlock', i, l, trace, pos)
                     elif prop == 'C09' and ' diff ' in l and 'kind=conc' not in l:
                         pass
-                elif l.startswith('C ') and 'unserializable=1' in l:
-                    unser += 1
+                elif l.startswith('C '):
+                    if 'unserializable=1' in l: unser += 1
+                    m2 = re.search(r'registry=(\d+)', l)
+                    if m2: regchk[0] += int(m2.group(1))
                 elif l.startswith('M '):
                     t = l.split(' ', 5)
                     if t[2] == prop:
-                        report(t[3], i, l, trace, pos)
+                        # an outcome the concurrent registry model does not reach is a broken correspondence, not yet a failing input
+                        report(t[3], i, l, trace, pos, nfi=(t[3] == 'registry-model-unreachable'))
     cov['conc_interleavings_explored'] = tot['explored']
     cov['conc_distinct_outcomes'] = tot['distinct']
     cov['conc_outcomes_explained_by_a_serial_order_of_the_model'] = hist - unser
     cov['conc_outcomes_no_serial_order_explains'] = unser
     cov['conc_deadlocks'] = tot['deadlocks']
+    cov['conc_join_only_outcomes_reached_by_the_concurrent_registry_model'] = regchk[0]
     cov['conc_corpus_histories'] = [os.path.basename(c) for c in corpus]
     return viol
